@@ -144,6 +144,19 @@ func init() {
 		{Kind: "calls", File: mf, Func: "mergeFields.fieldsCanMerge", Name: "fieldsCanMerge", Match: mm},
 		{Kind: "calls", File: mf, Func: "mergeFields.mergeValues", Name: "mergeValues", Match: mm},
 	}
+	// C07: the loader's failure handling
+	ldr7 := "v2/pkg/engine/resolve/loader.go"
+	lm := []string{"if", "return", "for", "l.record*", "l.shouldSkip*", "l.render*", "l.mergeErrors", "l.setSkipErrors", "res.parsedResponse", "isEmptyEntityFetch", "astjson.MergeValuesWithPath", "l.taintedObjs.add", "getTaintedIndices", "l.executeSourceLoad", "l.selectItemsForPath", "l.responseCacheLookup"}
+	specs["C07"] = []item{
+		{Kind: "calls", File: ldr7, Func: "Loader.mergeResult", Name: "mergeResult", Match: lm},
+		{Kind: "calls", File: ldr7, Func: "Loader.preparePhase", Name: "preparePhase", Match: lm},
+		{Kind: "calls", File: ldr7, Func: "Loader.loadPhase", Name: "loadPhase", Match: lm},
+		{Kind: "calls", File: ldr7, Func: "Loader.shouldSkipErroredDependencyLocked", Name: "shouldSkipErroredDependency", Match: lm},
+		{Kind: "calls", File: ldr7, Func: "Loader.recordErroredFetchIDLocked", Name: "recordErroredFetchID", Match: []string{"if", "return", "item.Fetch.Dependencies", "make"}},
+		{Kind: "calls", File: ldr7, Func: "Loader.renderErrorsFailedToFetch", Name: "renderErrorsFailedToFetch", Match: lm},
+		{Kind: "calls", File: ldr7, Func: "Loader.renderErrorsStatusFallback", Name: "renderErrorsStatusFallback", Match: lm},
+		{Kind: "calls", File: "v2/pkg/engine/resolve/tainted_objects.go", Func: "taintedObjects.isTainted", Name: "isTainted", Match: []string{"if", "return", "for", "t.*", "found"}},
+	}
 	// C15: the literal → JSON converter and the block string value
 	av := "v2/pkg/ast/ast_value.go"
 	asv := "v2/pkg/ast/ast_val_string_value.go"
